@@ -335,6 +335,12 @@ func (p *VipnodePool) connect(ctx context.Context, nodeID string, req ConnectReq
 		}
 
 		p.mu.Lock()
+		if conn, ok := service.(interface{ Closed() bool }); ok && conn.Closed() {
+			// The connection ended while this request was being handled,
+			// CloseRemote has run for it already or will find nothing to clean.
+			p.mu.Unlock()
+			return nil, ErrConnectionClosed
+		}
 		p.remoteHosts[node.ID] = service
 		p.remoteNodeLookup[service] = node.ID
 		p.mu.Unlock()
